@@ -61,6 +61,13 @@ def run(pid, tier):
             cases.append(b"@<'a" + b"".join(t)); 
             if l <= 3: cases.append(b"@(" + b"".join(t)); cases.append(b"".join(t) + b"@()x")
     cases += [b"@<'a(x: &'a str)", b"@<'a, T>(x: T)", b"@<'a, 'b: 'a>()", b"@<'a,>()", b"@<>()", b"@<'a>(x: &'a str)\n@x", b"@<'a b>()", b"@<'a\n>()", b"@< 'a, 'b >(x: &'a str)"]
+    # comments (their bodies are not UTF-8 checked) and stray bytes that are not UTF-8, at every position of templates using every construct
+    bases = [b"@(a: usize, b: &str)\nx", b"@<'a>(a: &'a str, c: Content)\n@:c()", b"@(v: Vec<(u8, impl ToHtml)>, f: &dyn Fn(u8) -> u8)\n",
+             b"@use a::b;\n@(x: impl ToHtml)\n@if x {a} else {b}@for i in xs {@i}@match m { A => {a} _ => {} }@:f(a, {b})@(1 + 2)@x.y(z)[0]"]
+    for base in bases:
+        for i in range(len(base) + 1):
+            for ins in (b"@*\xff*@", b"@*\xc3*@", b"@* \xc3\xa9 *@", b"\xff", b" @*\x80*@ "):
+                if tier != "quick" or rng.random() < 0.5: cases.append(base[:i] + ins + base[i:])
     # examples: splices and mutations
     ex = [open(f, "rb").read() for f in sorted(glob.glob(os.path.join(REPO, "examples", "**", "*.rs.*"), recursive=True))]
     cases += ex
